@@ -10,28 +10,19 @@
  *   odec <syn> <hex>    like core `dec`, but the decoded structure is printed / validated / re-encoded only after
  *                       RC_OK (a partially decoded structure is just freed) and asn_check_constraints is not
  *                       called: keeps defects of asn_fprint on half-built structures and of the emitted constraint
- *                       checkers (other properties) out of this check
+ *                       checkers (other properties) out of this check; after a failed decode: ` slot=<null|presence>` =
+ *                       what is left in the open type member (K: Impl.OpenType.slotAfter)
  */
 #include "gen_common.h"
 #include <asn_ioc.h>
 #include <OPEN_TYPE.h>
+#include <constr_CHOICE.h>
 #include <NativeInteger.h>
 #include <OBJECT_IDENTIFIER.h>
 #include <per_opentype.h>
 #include <per_encoder.h>
 
 extern const asn_ioc_set_t *verif_ioc_set __attribute__((weak));
-
-static char spec_shape(const asn_TYPE_descriptor_t *td) {
-    /* what OPEN_TYPE_*_get's failure path reads through (asn_CHOICE_specifics_t *)td->specifics */
-    if(!td->specifics) return 'n';
-    rf_kind_t k = rf_kind(td);
-    if(k == K_NINT || k == K_INT || k == K_NENUM || k == K_ENUM) {
-        const asn_INTEGER_specifics_t *sp = td->specifics;
-        return sp->value2enum ? 'w' : 's';
-    }
-    return 's';
-}
 
 struct bitsink { uint8_t *buf; size_t len, cap; };
 static int sink_cb(const void *b, size_t n, void *k) {
@@ -59,7 +50,7 @@ int ops_gen_c18(int argc, char **argv, FILE *out) {
             fprintf(out, "(member %s idx=%u ptr=%d opt=%u tagged=%d selector=%d kind=%s nelems=%u elems=(", e->name, i, (e->flags & ATF_POINTER) ? 1 : 0,
                     e->optional, e->tag != (ber_tlv_tag_t)-1, e->type_selector ? 1 : 0, rf_kind_name(rf_kind(e->type)), e->type->elements_count);
             for(unsigned j = 0; j < e->type->elements_count; j++)
-                fprintf(out, "%s%s:%s:%c", j ? " " : "", e->type->elements[j].name, e->type->elements[j].type->name, spec_shape(e->type->elements[j].type));
+                fprintf(out, "%s%s:%s", j ? " " : "", e->type->elements[j].name, e->type->elements[j].type->name);
             fputs(")) ", out);
         }
         if(!om) { fputs("no-open-type-member", out); return 1; }
@@ -141,7 +132,19 @@ int ops_gen_c18(int argc, char **argv, FILE *out) {
             asn_fprint(devnull, cur_td, st);
             asn_encode(0, ATS_DER, cur_td, st, sink_null, 0);
             asn_encode(0, ATS_BASIC_XER, cur_td, st, sink_null, 0);   /* not CANONICAL: SET OF scratch leak on element failure is F21 (C14) */
-        } else fputc('-', out);
+        } else {
+            fputc('-', out);
+            /* what the failed decode left in the (first) open type member: NULL pointer or a presence index */
+            for(unsigned i = 0; st && i < cur_td->elements_count; i++) {
+                const asn_TYPE_member_t *e = &cur_td->elements[i];
+                if(!(e->flags & ATF_OPEN_TYPE)) continue;
+                const void *ms = (e->flags & ATF_POINTER) ? *(const void *const *)((const char *)st + e->memb_offset)
+                                                          : (const void *)((const char *)st + e->memb_offset);
+                if(!ms) fputs(" slot=null", out);
+                else fprintf(out, " slot=%u", CHOICE_variant_get_presence(e->type, ms));
+                break;
+            }
+        }
         ASN_STRUCT_FREE(*cur_td, st);
         free(b);
         return 1;
